@@ -66,5 +66,24 @@ From PFL Require Export Spec.Pda Model.Pda Oracle.PdaAccept Spec.Enfa Model.Enfa
 Definition first_diff (f g : list N -> bool) (ws : list (list N)) : option (list N) :=
   find (fun w => negb (Bool.eqb (f w) (g w))) ws.
 
+(* ---- C11: the mirrored intersections (determinise, then Bar-Hillel / product); [Some [999999]] = out of fuel ---- *)
+From PFL Require Export Model.EnfaOps Model.CfgInter.
+Definition IFUEL : nat := 12%nat.
+Definition cfg_inter_model_diff {Vr} `{EqDec Vr} (G : cfg Vr) (A : enfa N) (ref : list N -> bool) (ws : list (list N)) : option (list N) :=
+  match determinize true A IFUEL with
+  | Some D => match cfg_inter NFFUEL G D with
+              | Some R => first_diff ref (cfg_member R) ws
+              | None => Some [999999]
+              end
+  | None => Some [999999]
+  end.
+Definition pda_inter_model_diff {Q G} `{EqDec Q} `{EqDec G} (P : pda Q G) (A : enfa N) (ref : list N -> bool) (ws : list (list N)) : option (list N) :=
+  if is_deterministic A
+  then match pda_inter P A IFUEL with Some R => first_diff ref (pda_accepts_final R) ws | None => Some [999999] end
+  else match determinize true A IFUEL with
+       | Some D => match pda_inter P D IFUEL with Some R => first_diff ref (pda_accepts_final R) ws | None => Some [999999] end
+       | None => Some [999999]
+       end.
+
 (* ---- C18 ---- *)
 From PFL Require Export Model.Feat.
